@@ -5,13 +5,14 @@
 //! usage: rpc --seed S --cases N --out DIR [--replay-ops f1,f2] [--only-replay 1]
 
 use std::collections::HashMap;
-use std::sync::atomic::{AtomicU64, Ordering};
-use std::sync::{Arc, Mutex};
+use std::sync::atomic::{AtomicBool, AtomicU64, Ordering};
+use std::sync::{Arc, Mutex, Weak};
 use std::time::Duration;
 
 use hutil::{Args, Log, Rng, Stats};
 use ractor::rpc::CallResult;
-use ractor::{Actor, ActorProcessingErr, ActorRef, RpcReplyPort};
+use ractor::actor::messages::BoxedState;
+use ractor::{Actor, ActorId, ActorProcessingErr, ActorRef, RpcReplyPort, SupervisionEvent};
 use tokio::sync::mpsc;
 use tokio::task::JoinHandle;
 
@@ -38,6 +39,69 @@ impl TryFrom<Msg> for DCall {
     }
 }
 
+/// a second narrower type: plain (reply-less) messages, for `DerivedActorRef::cast` / `send_message`
+struct DFwd(u64);
+impl From<DFwd> for Msg {
+    fn from(d: DFwd) -> Msg {
+        Msg::Fwd(d.0)
+    }
+}
+impl TryFrom<Msg> for DFwd {
+    type Error = ();
+    fn try_from(m: Msg) -> Result<DFwd, ()> {
+        match m {
+            Msg::Fwd(v) => Ok(DFwd(v)),
+            _ => Err(()),
+        }
+    }
+}
+
+/// a derived type whose reverse conversion is BROKEN (`TryFrom` always fails): when a send is refused
+/// the converter cannot hand the message back and panics — the documented "should never happen"
+struct DBroken(u64);
+impl From<DBroken> for Msg {
+    fn from(d: DBroken) -> Msg {
+        Msg::Fwd(d.0)
+    }
+}
+impl TryFrom<Msg> for DBroken {
+    type Error = ();
+    fn try_from(_: Msg) -> Result<DBroken, ()> {
+        Err(())
+    }
+}
+
+/// derived type over the WRONG message type (`InvalidActorType` must come back through the converter)
+/// the call form of the narrower wrong type (carries the reply port)
+struct DWrongCall(RpcReplyPort<u64>);
+impl From<DWrongCall> for Wrong {
+    fn from(d: DWrongCall) -> Wrong {
+        Wrong::W(d.0)
+    }
+}
+impl TryFrom<Wrong> for DWrongCall {
+    type Error = ();
+    fn try_from(w: Wrong) -> Result<DWrongCall, ()> {
+        match w {
+            Wrong::W(p) => Ok(DWrongCall(p)),
+            Wrong::C => Err(()),
+        }
+    }
+}
+
+struct DWrong;
+impl From<DWrong> for Wrong {
+    fn from(_: DWrong) -> Wrong {
+        Wrong::C
+    }
+}
+impl TryFrom<Wrong> for DWrong {
+    type Error = ();
+    fn try_from(_: Wrong) -> Result<DWrong, ()> {
+        Ok(DWrong)
+    }
+}
+
 /// a message type the callee does NOT accept (C02: wrong-type sends are rejected without
 /// disturbing the actor — through `cast`, `send_message` and `call` alike)
 enum Wrong {
@@ -51,6 +115,10 @@ enum Act {
     Drop,
     Keep,
     Detach,
+    /// `later p probe`: only look at `RpcReplyPort::is_closed` of a kept / detached / stashed port
+    Probe,
+    /// `fail a err|panic`: the handler fails while it holds the message (and its port)
+    Fail(bool),
 }
 
 impl Act {
@@ -60,6 +128,8 @@ impl Act {
             Act::Drop => "drop".into(),
             Act::Keep => "keep".into(),
             Act::Detach => "detach".into(),
+            Act::Probe => "probe".into(),
+            Act::Fail(p) => if *p { "panic".into() } else { "err".into() },
         }
     }
     fn parse(s: &str) -> Option<Act> {
@@ -67,28 +137,138 @@ impl Act {
             "drop" => Some(Act::Drop),
             "keep" => Some(Act::Keep),
             "detach" => Some(Act::Detach),
+            "probe" => Some(Act::Probe),
             _ => s.strip_prefix("reply:").and_then(|v| v.parse().ok()).map(Act::Reply),
         }
     }
 }
 
-type PortMap = Arc<Mutex<HashMap<u64, RpcReplyPort<u64>>>>;
+type PortMapInner = Mutex<HashMap<u64, RpcReplyPort<u64>>>;
+type PortMap = Arc<PortMapInner>;
 
-/// Ports "held by the actor": they live in a shared map so the harness can use them later,
-/// but the map is emptied (ports dropped) when the actor's state is dropped.
-struct Kept(PortMap);
-impl Drop for Kept {
-    fn drop(&mut self) {
-        self.0.lock().unwrap().clear();
+struct Callee;
+/// The actor State. `kept` — the ports a handler decided to keep — is OWNED by the state: this is
+/// the only strong reference to the map (the harness holds a `Weak` and upgrades it just for the
+/// duration of a `later` op while the actor is alive = "the actor uses the port in a later
+/// handler"). So the ports die exactly when the state is dropped, and they travel inside the
+/// `BoxedState` of `SupervisionEvent::ActorTerminated(_, Some(state), _)` on a graceful stop.
+struct CalleeState {
+    gate: mpsc::UnboundedReceiver<Act>,
+    kept: PortMap,
+    detached: PortMap,
+    log: Arc<Mutex<Vec<String>>>,
+}
+
+/// what the harness tells a supervisor
+enum SupCmd {
+    /// finish handling the current state-carrying termination event: stash it or drop it
+    Finish(bool),
+    /// take port `p` out of the stashed last state of actor `a` (`BoxedState::take`) and use it
+    Use(usize, u64, Act),
+    /// drop the stashed event of actor `a`
+    DropEvt(usize),
+}
+
+struct SupA;
+struct SupState {
+    gate: mpsc::UnboundedReceiver<SupCmd>,
+    stash: Vec<(usize, SupervisionEvent)>,
+    log: Arc<Mutex<Vec<String>>>,
+    ids: Arc<Mutex<HashMap<ActorId, usize>>>,
+    in_handler: Arc<AtomicBool>,
+}
+
+impl SupState {
+    fn apply(&mut self, cmd: SupCmd) {
+        let r: String = match cmd {
+            SupCmd::Use(a, p, act) => match self.stash.iter_mut().find(|(b, _)| *b == a) {
+                Some((_, SupervisionEvent::ActorTerminated(_, Some(boxed), _))) => match boxed.take::<CalleeState>() {
+                    Ok(cs) => {
+                        if let Act::Probe = act {
+                            let r = cs.kept.lock().unwrap().get(&p).map(|port| port.is_closed());
+                            *boxed = BoxedState::new(cs);
+                            self.log.lock().unwrap().push(match r {
+                                Some(true) => "closed".into(),
+                                Some(false) => "open".into(),
+                                None => "noport".to_string(),
+                            });
+                            return;
+                        }
+                        let port = cs.kept.lock().unwrap().remove(&p);
+                        *boxed = BoxedState::new(cs);
+                        match (port, act) {
+                            (None, _) => "noport".into(),
+                            (Some(port), Act::Reply(v)) => if port.send(v).is_ok() { "sent-ok".into() } else { "sent-err".into() },
+                            (Some(port), _) => {
+                                drop(port);
+                                "dropped".into()
+                            }
+                        }
+                    }
+                    Err(_) => "bad-state".into(),
+                },
+                _ => "noport".into(),
+            },
+            SupCmd::DropEvt(a) => match self.stash.iter().position(|(b, _)| *b == a) {
+                Some(i) => {
+                    drop(self.stash.remove(i));
+                    "dropped".into()
+                }
+                None => "noevent".into(),
+            },
+            SupCmd::Finish(_) => "idle".into(),
+        };
+        self.log.lock().unwrap().push(r);
     }
 }
 
-struct Callee;
-struct CalleeState {
-    gate: mpsc::UnboundedReceiver<Act>,
-    kept: Kept,
-    detached: PortMap,
+impl Actor for SupA {
+    type Msg = SupCmd;
+    type State = SupState;
+    type Arguments = SupState;
+    async fn pre_start(&self, _: ActorRef<SupCmd>, st: SupState) -> Result<SupState, ActorProcessingErr> {
+        Ok(st)
+    }
+    async fn handle(&self, _: ActorRef<SupCmd>, msg: SupCmd, st: &mut SupState) -> Result<(), ActorProcessingErr> {
+        st.apply(msg);
+        Ok(())
+    }
+    async fn handle_supervisor_evt(&self, _: ActorRef<SupCmd>, evt: SupervisionEvent, st: &mut SupState) -> Result<(), ActorProcessingErr> {
+        // only termination events that carry the child's last state are gated; everything else
+        // (ActorStarted, kills/failures without a state) holds no port and is dropped at once
+        let a = match &evt {
+            SupervisionEvent::ActorTerminated(cell, Some(_), _) => st.ids.lock().unwrap().get(&cell.get_id()).copied(),
+            _ => None,
+        };
+        let Some(a) = a else { return Ok(()) };
+        st.in_handler.store(true, Ordering::SeqCst);
+        loop {
+            match st.gate.recv().await {
+                None => break,
+                Some(SupCmd::Finish(true)) => {
+                    st.log.lock().unwrap().push(format!("evt {a}"));
+                    st.stash.push((a, evt));
+                    break;
+                }
+                Some(SupCmd::Finish(false)) => {
+                    st.log.lock().unwrap().push(format!("evt {a}"));
+                    drop(evt);
+                    break;
+                }
+                Some(other) => st.apply(other),
+            }
+        }
+        st.in_handler.store(false, Ordering::SeqCst);
+        Ok(())
+    }
+}
+
+struct SupH {
+    r: ActorRef<SupCmd>,
+    gate: mpsc::UnboundedSender<SupCmd>,
     log: Arc<Mutex<Vec<String>>>,
+    in_handler: Arc<AtomicBool>,
+    alive: bool,
 }
 
 impl Actor for Callee {
@@ -101,26 +281,41 @@ impl Actor for Callee {
     async fn handle(&self, _: ActorRef<Msg>, msg: Msg, st: &mut CalleeState) -> Result<(), ActorProcessingErr> {
         // wait until the harness says what this handler does with the message
         let Some(act) = st.gate.recv().await else { return Ok(()) };
+        if let Act::Fail(panic) = act {
+            // the handler fails while it still owns the message — and the reply port inside it
+            st.log.lock().unwrap().push(match &msg {
+                Msg::Fwd(v) => format!("failed-fwd {v}"),
+                Msg::Call(id, _) => format!("failed {id}"),
+            });
+            if panic {
+                panic!("harness: handler panics holding its message");
+            }
+            return Err("harness: handler fails holding its message".into());
+        }
         match msg {
             Msg::Fwd(v) => st.log.lock().unwrap().push(format!("fwd {v}")),
-            Msg::Call(id, port) => match act {
-                Act::Reply(v) => {
-                    let r = port.send(v);
-                    st.log.lock().unwrap().push(format!("handled {id} {}", if r.is_ok() { "sent-ok" } else { "sent-err" }));
+            Msg::Call(id, port) => {
+                // the caller's timeout travels with the port (`RpcReplyPort::get_timeout`)
+                let t = port.get_timeout().map(|d| d.as_millis().to_string()).unwrap_or_else(|| "-".into());
+                match act {
+                    Act::Reply(v) => {
+                        let r = port.send(v);
+                        st.log.lock().unwrap().push(format!("handled {id} t={t} {}", if r.is_ok() { "sent-ok" } else { "sent-err" }));
+                    }
+                    Act::Drop | Act::Probe | Act::Fail(_) => {
+                        drop(port);
+                        st.log.lock().unwrap().push(format!("handled {id} t={t}"));
+                    }
+                    Act::Keep => {
+                        st.kept.lock().unwrap().insert(id, port);
+                        st.log.lock().unwrap().push(format!("handled {id} t={t}"));
+                    }
+                    Act::Detach => {
+                        st.detached.lock().unwrap().insert(id, port);
+                        st.log.lock().unwrap().push(format!("handled {id} t={t}"));
+                    }
                 }
-                Act::Drop => {
-                    drop(port);
-                    st.log.lock().unwrap().push(format!("handled {id}"));
-                }
-                Act::Keep => {
-                    st.kept.0.lock().unwrap().insert(id, port);
-                    st.log.lock().unwrap().push(format!("handled {id}"));
-                }
-                Act::Detach => {
-                    st.detached.lock().unwrap().insert(id, port);
-                    st.log.lock().unwrap().push(format!("handled {id}"));
-                }
-            },
+            }
         }
         Ok(())
     }
@@ -129,11 +324,12 @@ impl Actor for Callee {
 struct ActorH {
     r: ActorRef<Msg>,
     gate: mpsc::UnboundedSender<Act>,
-    kept: PortMap,
+    kept: Weak<PortMapInner>,
     log: Arc<Mutex<Vec<String>>>,
     queued: usize, // messages accepted into the mailbox and not yet handled
     alive: bool,
     draining: bool,
+    sup: Option<usize>,
 }
 
 enum Pending {
@@ -147,6 +343,12 @@ struct World {
     next_port: u64,
     pending: Vec<(u64, Pending)>,
     groups: Vec<Option<JoinHandle<String>>>,
+    sups: Vec<SupH>,
+    ids: Arc<Mutex<HashMap<ActorId, usize>>>,
+    keeper: HashMap<u64, usize>, // port -> actor whose state holds it
+    stashed: Vec<(usize, usize)>, // (supervisor, actor) events the harness had stashed (generator hint only)
+    free_fcall: bool,
+    newly_dead: Vec<usize>, // actors seen Stopped (`get_status`) since the last op line was closed
 }
 
 async fn quiesce() {
@@ -165,16 +367,108 @@ fn show_res<T>(r: &CallResult<T>, f: impl Fn(&T) -> String) -> String {
 
 impl World {
     fn new() -> Self {
-        World { actors: vec![], detached: Default::default(), next_port: 0, pending: vec![], groups: vec![] }
+        World {
+            actors: vec![],
+            detached: Default::default(),
+            next_port: 0,
+            pending: vec![],
+            groups: vec![],
+            sups: vec![],
+            ids: Default::default(),
+            keeper: HashMap::new(),
+            stashed: vec![],
+            free_fcall: false,
+            newly_dead: vec![],
+        }
     }
 
-    async fn spawn(&mut self) {
+    /// spawn a callee, optionally linked to supervisor `u`; `false` = the spawn failed
+    async fn spawn(&mut self, sup: Option<usize>) -> bool {
         let (tx, rx) = mpsc::unbounded_channel();
         let kept: PortMap = Default::default();
+        let weak = Arc::downgrade(&kept);
         let log: Arc<Mutex<Vec<String>>> = Default::default();
-        let st = CalleeState { gate: rx, kept: Kept(kept.clone()), detached: self.detached.clone(), log: log.clone() };
-        let (r, _h) = Actor::spawn(None, Callee, st).await.expect("spawn");
-        self.actors.push(ActorH { r, gate: tx, kept, log, queued: 0, alive: true, draining: false });
+        let st = CalleeState { gate: rx, kept, detached: self.detached.clone(), log: log.clone() };
+        let res = match sup {
+            None => Actor::spawn(None, Callee, st).await,
+            Some(u) => Actor::spawn_linked(None, Callee, st, self.sups[u].r.get_cell()).await,
+        };
+        let Ok((r, _h)) = res else { return false };
+        self.ids.lock().unwrap().insert(r.get_id(), self.actors.len());
+        self.actors.push(ActorH { r, gate: tx, kept: weak, log, queued: 0, alive: true, draining: false, sup });
+        true
+    }
+
+    async fn spawn_sup(&mut self) {
+        let (tx, rx) = mpsc::unbounded_channel();
+        let log: Arc<Mutex<Vec<String>>> = Default::default();
+        let in_handler = Arc::new(AtomicBool::new(false));
+        let st = SupState { gate: rx, stash: vec![], log: log.clone(), ids: self.ids.clone(), in_handler: in_handler.clone() };
+        let (r, _h) = Actor::spawn(None, SupA, st).await.expect("spawn sup");
+        self.sups.push(SupH { r, gate: tx, log, in_handler, alive: true });
+    }
+
+    fn take_sup_log(&mut self, u: usize) -> String {
+        let mut l = self.sups[u].log.lock().unwrap();
+        let s = l.join(",");
+        l.clear();
+        if s.is_empty() { "idle".into() } else { s }
+    }
+
+    /// deliver a command to supervisor `u`: through the gate when it sits in `handle_supervisor_evt`
+    /// (it keeps serving commands there), as an ordinary message otherwise
+    async fn sup_cmd(&mut self, u: usize, cmd: SupCmd) -> String {
+        if self.sups[u].in_handler.load(Ordering::SeqCst) {
+            let _ = self.sups[u].gate.send(cmd);
+        } else {
+            let _ = self.sups[u].r.cast(cmd);
+        }
+        quiesce().await;
+        self.take_sup_log(u)
+    }
+
+    async fn suphandle(&mut self, u: usize, stash: bool) -> String {
+        if u >= self.sups.len() {
+            return "bad-sup".into();
+        }
+        if !self.sups[u].alive || !self.sups[u].in_handler.load(Ordering::SeqCst) {
+            return Self::fmt("idle", self.events().await);
+        }
+        let pre = self.sup_cmd(u, SupCmd::Finish(stash)).await;
+        if let (true, Some(a)) = (stash, pre.strip_prefix("evt ").and_then(|x| x.parse::<usize>().ok())) {
+            self.stashed.push((u, a));
+        }
+        Self::fmt(&pre, self.events().await)
+    }
+
+    async fn supdrop(&mut self, u: usize, a: usize) -> String {
+        if u >= self.sups.len() {
+            return "bad-sup".into();
+        }
+        if !self.sups[u].alive {
+            return Self::fmt("noevent", self.events().await);
+        }
+        let pre = self.sup_cmd(u, SupCmd::DropEvt(a)).await;
+        self.stashed.retain(|x| *x != (u, a));
+        Self::fmt(&pre, self.events().await)
+    }
+
+    async fn supexit(&mut self, u: usize) -> String {
+        if u >= self.sups.len() {
+            return "bad-sup".into();
+        }
+        self.sups[u].r.kill();
+        self.sups[u].alive = false;
+        self.stashed.retain(|x| x.0 != u);
+        quiesce().await;
+        self.refresh_alive();
+        Self::fmt("ok", self.events().await)
+    }
+
+    fn note_keeper(&mut self, a: usize, act: Act, pre: &str) {
+        if let (Act::Keep, Some(id)) = (act, pre.strip_prefix("handled ").and_then(|x| x.split(' ').next()).and_then(|x| x.parse::<u64>().ok())) {
+            self.keeper.insert(id, a);
+        }
     }
 
     /// collect completion events after an op (sorted: calls by port, then groups)
@@ -223,7 +517,10 @@ impl World {
         t.map(Duration::from_millis)
     }
 
-    async fn call(&mut self, a: usize, t: Option<u64>, via_macro: bool, via_derived: bool) -> String {
+    async fn call(&mut self, a: usize, t: Option<u64>, via_macro: u8, via_derived: bool) -> String {
+        // via_macro == 9: the free function `rpc::call`
+        let via_free = via_macro == 9;
+        let via_macro = if via_free { 0 } else { via_macro };
         let id = self.next_port;
         self.next_port += 1;
         let Some(ah) = self.actors.get_mut(a) else { return "bad-actor".into() };
@@ -231,11 +528,14 @@ impl World {
         let accepted = Arc::new(AtomicU64::new(0));
         let acc2 = accepted.clone();
         let h = tokio::spawn(async move {
-            if via_macro {
-                // the `call!` / `call_t!` macros (ractor/src/macros.rs)
-                let res: Result<u64, ractor::RactorErr<Msg>> = match t {
-                    None => ractor::call!(r, Msg::Call, id),
-                    Some(ms) => ractor::call_t!(r, Msg::Call, ms, id),
+            if via_macro > 0 {
+                // the `call!` / `call_t!` macros (ractor/src/macros.rs): 1 = the arms with extra
+                // arguments preceding the reply port, 2 = the arms without (`$msg(tx)`: a closure builder)
+                let res: Result<u64, ractor::RactorErr<Msg>> = match (t, via_macro) {
+                    (None, 1) => ractor::call!(r, Msg::Call, id),
+                    (Some(ms), 1) => ractor::call_t!(r, Msg::Call, ms, id),
+                    (None, _) => ractor::call!(r, |tx| Msg::Call(id, tx)),
+                    (Some(ms), _) => ractor::call_t!(r, |tx| Msg::Call(id, tx), ms),
                 };
                 return match res {
                     Ok(v) => {
@@ -267,7 +567,12 @@ impl World {
                     Err(_) => "derived-err".into(),
                 };
             }
-            let res = r.call(|port| Msg::Call(id, port), Self::timeout(t)).await;
+            let res = if via_macro == 0 && via_free {
+                // the free function `rpc::call(&ActorCell, ..)` (runtime type check in `send_message`)
+                ractor::rpc::call(&r.get_cell(), |port| Msg::Call(id, port), Self::timeout(t)).await
+            } else {
+                r.call(|port| Msg::Call(id, port), Self::timeout(t)).await
+            };
             match res {
                 Ok(cr) => {
                     acc2.store(1, Ordering::SeqCst);
@@ -284,6 +589,68 @@ impl World {
             self.actors[a].queued += 1;
         }
         Self::fmt("ok", self.events().await)
+    }
+
+    /// a plain message carrying `v`, through one of the cast surfaces: `` = `ActorRef::cast`,
+    /// `f` = free fn `rpc::cast(&cell, msg)`, `m` = `cast!`, `d` = `DerivedActorRef::cast`,
+    /// `ds` = `DerivedActorRef::send_message` (on a CLONE of the derived ref, reached through
+    /// its `get_cell`/`Deref` for the liveness cross-check). A refused send must hand back the very message.
+    async fn cast(&mut self, a: usize, v: u64, flavour: &str) -> String {
+        let Some(ah) = self.actors.get_mut(a) else { return "bad-actor".into() };
+        let r = ah.r.clone();
+        let back = |e: ractor::MessagingErr<Msg>| match e {
+            ractor::MessagingErr::SendErr(Msg::Fwd(w)) if w == v => "sendErr".to_string(),
+            ractor::MessagingErr::SendErr(_) => "sendErr-wrong-message".into(),
+            ractor::MessagingErr::ChannelClosed => "channelClosed".into(),
+            ractor::MessagingErr::InvalidActorType => "invalid-type".into(),
+        };
+        let dback = |e: ractor::MessagingErr<DFwd>| match e {
+            ractor::MessagingErr::SendErr(DFwd(w)) if w == v => "sendErr".to_string(),
+            ractor::MessagingErr::SendErr(_) => "sendErr-wrong-message".into(),
+            ractor::MessagingErr::ChannelClosed => "channelClosed".into(),
+            ractor::MessagingErr::InvalidActorType => "invalid-type".into(),
+        };
+        let res: String = match flavour {
+            "f" => ractor::rpc::cast(&r.get_cell(), Msg::Fwd(v)).map(|_| "ok".to_string()).unwrap_or_else(back),
+            "m" => match ractor::cast!(r, Msg::Fwd(v)) {
+                Ok(()) => "ok".into(),
+                Err(ractor::RactorErr::Messaging(e)) => back(e),
+                Err(_) => "macro-err".into(),
+            },
+            "d" => {
+                let d: ractor::DerivedActorRef<DFwd> = r.get_derived();
+                d.cast(DFwd(v)).map(|_| "ok".to_string()).unwrap_or_else(dback)
+            }
+            "dp" => {
+                // broken reverse conversion: a refused send must PANIC in the converter (documented),
+                // an accepted one must not
+                let d: ractor::DerivedActorRef<DBroken> = r.get_derived();
+                match std::panic::catch_unwind(std::panic::AssertUnwindSafe(|| d.cast(DBroken(v)))) {
+                    Ok(Ok(())) => "ok".into(),
+                    Ok(Err(_)) => "deconvert-did-not-panic".into(),
+                    Err(p) => {
+                        let m = p.downcast_ref::<String>().cloned().unwrap_or_default();
+                        if m.starts_with("Failed to deconvert message from") { "sendErr".into() } else { "other-panic".into() }
+                    }
+                }
+            }
+            "ds" => {
+                let d: ractor::DerivedActorRef<DFwd> = r.get_derived();
+                let d2 = d.clone();
+                drop(d);
+                // `get_cell`, the `Deref<Target = ActorCell>` and `Debug` must name the very actor
+                if d2.get_cell().get_id() != r.get_id() || d2.get_id() != r.get_id() || !format!("{d2:?}").starts_with("DerivedActorRef") {
+                    "derived-wrong-cell".into()
+                } else {
+                    d2.send_message(DFwd(v)).map(|_| "ok".to_string()).unwrap_or_else(dback)
+                }
+            }
+            _ => r.cast(Msg::Fwd(v)).map(|_| "ok".to_string()).unwrap_or_else(back),
+        };
+        if res == "ok" {
+            self.actors[a].queued += 1;
+        }
+        Self::fmt(&res, self.events().await)
     }
 
     async fn fcall(&mut self, a: usize, f: usize, t: Option<u64>, via_macro: bool) -> String {
@@ -319,7 +686,12 @@ impl World {
             self.pending.push((id, Pending::Fcall(h, f)));
             return Self::fmt("ok", self.events().await);
         }
-        let r = self.actors[a].r.call_and_forward(|port| Msg::Call(id, port), &fwd, Msg::Fwd, Self::timeout(t));
+        let r = if self.free_fcall {
+            // the free function `rpc::call_and_forward(&ActorCell, .., ActorCell, ..)`
+            ractor::rpc::call_and_forward(&self.actors[a].r.get_cell(), |port| Msg::Call(id, port), fwd.get_cell(), Msg::Fwd, Self::timeout(t))
+        } else {
+            self.actors[a].r.call_and_forward(|port| Msg::Call(id, port), &fwd, Msg::Fwd, Self::timeout(t))
+        };
         match r {
             Err(_) => Self::fmt("ok", format!("fdone {id}=sendErr")),
             Ok(jh) => {
@@ -346,6 +718,8 @@ impl World {
         let ctr = Arc::new(AtomicU64::new(base));
         let sent = Arc::new(AtomicU64::new(0));
         let (c2, s2) = (ctr.clone(), sent.clone());
+        let send_failed = Arc::new(AtomicBool::new(false));
+        let sf2 = send_failed.clone();
         let h = tokio::spawn(async move {
             let r = ractor::rpc::multi_call(
                 &refs,
@@ -358,12 +732,16 @@ impl World {
             .await;
             match r {
                 Ok(v) => v.iter().map(|cr| show_res(cr, |v| format!("success:{v}"))).collect::<Vec<_>>().join(","),
-                Err(_) => "err".into(),
+                Err(_) => {
+                    sf2.store(true, Ordering::SeqCst);
+                    "err".into()
+                }
             }
         });
         self.groups.push(Some(h));
         quiesce().await;
-        let failed = self.groups.last().unwrap().as_ref().is_some_and(|h| h.is_finished());
+        // (a group with timeout 0 also completes at once — but without a failed send)
+        let failed = send_failed.load(Ordering::SeqCst);
         // messages accepted: all of them, or (on a failed send) those before the failing one
         let n_built = sent.load(Ordering::SeqCst) as usize;
         let n_acc = if failed && n_built > 0 && n_built <= targets.len() { n_built - 1 } else { n_built };
@@ -382,15 +760,39 @@ impl World {
         if s.is_empty() { "idle".into() } else { s }
     }
 
-    async fn handle(&mut self, a: usize, act: Act) -> String {
+    /// `adv`: the clock moves by `adv` ms in the same op, BEFORE anybody is polled again: the
+    /// handler's action and the deadline are seen together (a reply at the deadline instant)
+    async fn handle(&mut self, a: usize, act: Act, adv: u64) -> String {
+        if a >= self.actors.len() {
+            return "bad-actor".into();
+        }
+        if !self.actors[a].alive || self.actors[a].queued == 0 {
+            if adv > 0 {
+                tokio::time::advance(Duration::from_millis(adv)).await;
+            }
+            return Self::fmt("idle", self.events().await);
+        }
+        let _ = self.actors[a].gate.send(act);
+        self.actors[a].queued -= 1;
+        if adv > 0 {
+            tokio::time::advance(Duration::from_millis(adv)).await;
+        }
+        quiesce().await;
+        let pre = self.take_log(a);
+        self.note_keeper(a, act, &pre);
+        self.refresh_alive();
+        Self::fmt(&pre, self.events().await)
+    }
+
+    /// the handler of the message `a` is working on fails (`Err` / panic)
+    async fn fail(&mut self, a: usize, panic: bool) -> String {
         if a >= self.actors.len() {
             return "bad-actor".into();
         }
         if !self.actors[a].alive || self.actors[a].queued == 0 {
             return Self::fmt("idle", self.events().await);
         }
-        let _ = self.actors[a].gate.send(act);
-        self.actors[a].queued -= 1;
+        let _ = self.actors[a].gate.send(Act::Fail(panic));
         quiesce().await;
         let pre = self.take_log(a);
         self.refresh_alive();
@@ -398,25 +800,57 @@ impl World {
     }
 
     fn refresh_alive(&mut self) {
-        for ah in self.actors.iter_mut() {
+        for (i, ah) in self.actors.iter_mut().enumerate() {
             if ah.alive && ah.r.get_status() == ractor::ActorStatus::Stopped {
                 ah.alive = false;
                 ah.queued = 0;
+                self.newly_dead.push(i);
             }
         }
     }
 
     async fn later(&mut self, p: u64, act: Act) -> String {
-        let port = {
-            let mut found = None;
-            for ah in self.actors.iter() {
-                if let Some(port) = ah.kept.lock().unwrap().remove(&p) {
-                    found = Some(port);
-                    break;
+        let mut kept_port = None;
+        if let Act::Probe = act {
+            // look, do not touch: `RpcReplyPort::is_closed` = the caller has gone (timed out / abandoned)
+            let mut seen: Option<bool> = None;
+            if let Some(&a) = self.keeper.get(&p) {
+                if self.actors[a].alive {
+                    if let Some(m) = self.actors[a].kept.upgrade() {
+                        seen = m.lock().unwrap().get(&p).map(|port| port.is_closed());
+                    }
+                } else if let Some(u) = self.actors[a].sup {
+                    if self.sups[u].alive {
+                        let pre = self.sup_cmd(u, SupCmd::Use(a, p, act)).await;
+                        return Self::fmt(&pre, self.events().await);
+                    }
                 }
             }
-            found.or_else(|| self.detached.lock().unwrap().remove(&p))
-        };
+            if seen.is_none() {
+                seen = self.detached.lock().unwrap().get(&p).map(|port| port.is_closed());
+            }
+            let pre = match seen {
+                Some(true) => "closed",
+                Some(false) => "open",
+                None => "noport",
+            };
+            return Self::fmt(pre, self.events().await);
+        }
+        if let Some(&a) = self.keeper.get(&p) {
+            if self.actors[a].alive {
+                // the actor itself uses a port it kept in its state
+                if let Some(m) = self.actors[a].kept.upgrade() {
+                    kept_port = m.lock().unwrap().remove(&p);
+                }
+            } else if let Some(u) = self.actors[a].sup {
+                // the state may live on in a termination event: only the supervisor can reach it
+                if self.sups[u].alive {
+                    let pre = self.sup_cmd(u, SupCmd::Use(a, p, act)).await;
+                    return Self::fmt(&pre, self.events().await);
+                }
+            }
+        }
+        let port = kept_port.or_else(|| self.detached.lock().unwrap().remove(&p));
         let pre = match (port, act) {
             (None, _) => "noport".to_string(),
             (Some(port), Act::Reply(v)) => if port.send(v).is_ok() { "sent-ok".into() } else { "sent-err".into() },
@@ -428,7 +862,9 @@ impl World {
         Self::fmt(&pre, self.events().await)
     }
 
-    /// wrong-type send through `cast` (kind 0), `ActorCell::send_message` (1) or `call` (2)
+    /// wrong-type send through `cast` (kind 0), `ActorCell::send_message` (1), `call` (2), or through a
+    /// `DerivedActorRef` derived from the wrongly typed `ActorRef`: `cast` (3), `send_message` (4),
+    /// `call` (5), `send_after` (6)
     async fn bad(&mut self, a: usize, kind: u8) -> String {
         if a >= self.actors.len() {
             return "bad-actor".into();
@@ -441,11 +877,49 @@ impl World {
                 Ok(()) => "accepted".into(),
                 Err(_) => "other-err".into(),
             },
+            3 => {
+                // a DerivedActorRef over the wrong-typed ref: the converter must hand InvalidActorType through
+                let d: ractor::DerivedActorRef<DWrong> = wrong.get_derived();
+                match d.cast(DWrong) {
+                    Err(ractor::MessagingErr::InvalidActorType) => "invalid-type".to_string(),
+                    Ok(()) => "accepted".into(),
+                    Err(_) => "other-err".into(),
+                }
+            }
             1 => match cell.send_message(Wrong::C) {
                 Err(ractor::MessagingErr::InvalidActorType) => "invalid-type".to_string(),
                 Ok(()) => "accepted".into(),
                 Err(_) => "other-err".into(),
             },
+            4 => {
+                // DerivedActorRef::send_message over the wrong-typed ref
+                let d: ractor::DerivedActorRef<DWrong> = wrong.get_derived();
+                match d.send_message(DWrong) {
+                    Err(ractor::MessagingErr::InvalidActorType) => "invalid-type".to_string(),
+                    Ok(()) => "accepted".into(),
+                    Err(_) => "other-err".into(),
+                }
+            }
+            5 => {
+                // DerivedActorRef::call over the wrong-typed ref
+                let d: ractor::DerivedActorRef<DWrongCall> = wrong.get_derived();
+                match d.call(DWrongCall, Some(Duration::from_millis(5))).await {
+                    Err(ractor::MessagingErr::InvalidActorType) => "invalid-type".to_string(),
+                    Ok(_) => "accepted".into(),
+                    Err(_) => "other-err".into(),
+                }
+            }
+            6 => {
+                // DerivedActorRef::send_after (zero delay) over the wrong-typed ref
+                let d: ractor::DerivedActorRef<DWrong> = wrong.get_derived();
+                let h = d.send_after(Duration::from_millis(0), || DWrong);
+                quiesce().await;
+                match h.await {
+                    Ok(Err(ractor::MessagingErr::InvalidActorType)) => "invalid-type".to_string(),
+                    Ok(Ok(())) => "accepted".into(),
+                    _ => "other-err".into(),
+                }
+            }
             _ => match wrong.call(Wrong::W, Some(Duration::from_millis(5))).await {
                 Err(ractor::MessagingErr::InvalidActorType) => "invalid-type".to_string(),
                 Ok(_) => "accepted".into(),
@@ -479,6 +953,7 @@ impl World {
             let _ = self.actors[a].gate.send(act);
             quiesce().await;
             pre = self.take_log(a);
+            self.note_keeper(a, act, &pre);
         }
         quiesce().await;
         self.refresh_alive();
@@ -506,6 +981,10 @@ impl World {
             ah.r.kill();
         }
         quiesce().await;
+        for sh in self.sups.iter() {
+            sh.r.kill();
+        }
+        quiesce().await;
         for (_, p) in self.pending.drain(..) {
             match p {
                 Pending::Call(h) => h.abort(),
@@ -520,26 +999,64 @@ impl World {
     }
 
     /// execute one op line; returns the observation
+    /// execute one op line; the observation ends with ` # died a,b` when actors were seen to have
+    /// stopped during the op (the implementation's own word on who died — the oracle uses only this)
     async fn exec(&mut self, line: &str) -> String {
+        let obs = self.exec_inner(line).await;
+        self.refresh_alive();
+        if self.newly_dead.is_empty() {
+            return obs;
+        }
+        self.newly_dead.sort();
+        let d: Vec<String> = self.newly_dead.drain(..).map(|a| a.to_string()).collect();
+        format!("{obs} # died {}", d.join(","))
+    }
+
+    async fn exec_inner(&mut self, line: &str) -> String {
         let w: Vec<&str> = line.split_whitespace().collect();
         let t = |s: &str| -> Option<u64> { if s == "-" { None } else { s.parse().ok() } };
         match w.as_slice() {
             ["spawn"] => {
-                self.spawn().await;
+                self.spawn(None).await;
                 "ok".into()
             }
-            ["call", a, tt] => self.call(a.parse().unwrap_or(99), t(tt), false, false).await,
-            ["call", a, tt, "m"] => self.call(a.parse().unwrap_or(99), t(tt), true, false).await,
-            ["call", a, tt, "d"] => self.call(a.parse().unwrap_or(99), t(tt), false, true).await,
+            ["spawnsup"] => {
+                self.spawn_sup().await;
+                "ok".into()
+            }
+            ["spawnl", u] => match u.parse::<usize>() {
+                Ok(u) if u < self.sups.len() => if self.spawn(Some(u)).await { "ok".into() } else { "failed".into() },
+                _ => "bad-sup".into(),
+            },
+            ["suphandle", u, what] => self.suphandle(u.parse().unwrap_or(99), *what == "stash").await,
+            ["supdrop", u, a] => self.supdrop(u.parse().unwrap_or(99), a.parse().unwrap_or(usize::MAX)).await,
+            ["supexit", u] => self.supexit(u.parse().unwrap_or(99)).await,
+            ["call", a, tt] => self.call(a.parse().unwrap_or(99), t(tt), 0, false).await,
+            ["call", a, tt, "m"] => self.call(a.parse().unwrap_or(99), t(tt), 1, false).await,
+            ["call", a, tt, "m0"] => self.call(a.parse().unwrap_or(99), t(tt), 2, false).await,
+            ["call", a, tt, "d"] => self.call(a.parse().unwrap_or(99), t(tt), 0, true).await,
+            ["call", a, tt, "f"] => self.call(a.parse().unwrap_or(99), t(tt), 9, false).await,
+            ["cast", a, v] => self.cast(a.parse().unwrap_or(99), v.parse().unwrap_or(0), "").await,
+            ["cast", a, v, fl] => self.cast(a.parse().unwrap_or(99), v.parse().unwrap_or(0), fl).await,
             ["fcall", a, f, tt] => self.fcall(a.parse().unwrap_or(99), f.parse().unwrap_or(99), t(tt), false).await,
             ["fcall", a, f, tt, "m"] => self.fcall(a.parse().unwrap_or(99), f.parse().unwrap_or(99), t(tt), true).await,
+            ["fcall", a, f, tt, "f"] => {
+                self.free_fcall = true;
+                let r = self.fcall(a.parse().unwrap_or(99), f.parse().unwrap_or(99), t(tt), false).await;
+                self.free_fcall = false;
+                r
+            }
             ["mcall", targets, tt] => {
                 let v: Vec<usize> = targets.split(',').filter_map(|x| x.parse().ok()).collect();
                 self.mcall(&v, t(tt)).await
             }
             ["handle", a, act] => match Act::parse(act) {
-                Some(act) => self.handle(a.parse().unwrap_or(99), act).await,
+                Some(act) => self.handle(a.parse().unwrap_or(99), act, 0).await,
                 None => "bad-op".into(),
+            },
+            ["handle", a, act, d] => match (Act::parse(act), d.strip_prefix('+').and_then(|x| x.parse::<u64>().ok())) {
+                (Some(act), Some(d)) => self.handle(a.parse().unwrap_or(99), act, d).await,
+                _ => "bad-op".into(),
             },
             ["later", p, act] => match Act::parse(act) {
                 Some(act) => self.later(p.parse().unwrap_or(u64::MAX), act).await,
@@ -548,11 +1065,16 @@ impl World {
             ["badcast", a] => self.bad(a.parse().unwrap_or(99), 0).await,
             ["badsend", a] => self.bad(a.parse().unwrap_or(99), 1).await,
             ["badcall", a] => self.bad(a.parse().unwrap_or(99), 2).await,
+            ["baddcast", a] => self.bad(a.parse().unwrap_or(99), 3).await,
+            ["baddsend", a] => self.bad(a.parse().unwrap_or(99), 4).await,
+            ["baddcall", a] => self.bad(a.parse().unwrap_or(99), 5).await,
+            ["baddafter", a] => self.bad(a.parse().unwrap_or(99), 6).await,
             ["exit", a] => self.exit(a.parse().unwrap_or(99)).await,
             ["stop", a, act] => match Act::parse(act) {
                 Some(act) => self.stop(a.parse().unwrap_or(99), act).await,
                 None => "bad-op".into(),
             },
+            ["fail", a, how] => self.fail(a.parse().unwrap_or(99), *how == "panic").await,
             ["drain", a] => self.drain(a.parse().unwrap_or(99)).await,
             ["advance", d] => self.advance(d.parse().unwrap_or(0)).await,
             _ => "bad-op".into(),
@@ -572,7 +1094,7 @@ fn gen_act(rng: &mut Rng) -> Act {
 fn gen_timeout(rng: &mut Rng) -> String {
     match rng.below(5) {
         0 | 1 => "-".into(),
-        _ => rng.pick(&[1u64, 2, 3, 5, 10]).to_string(),
+        _ => rng.pick(&[0u64, 1, 2, 3, 5, 10]).to_string(),
     }
 }
 
@@ -580,35 +1102,81 @@ async fn gen_case(log: &mut Log, st: &mut Stats, rng: &mut Rng, len: u64) {
     let mut w = World::new();
     log.rec("case", "ok");
     let n = rng.range(1, 4) as usize;
+    // supervisors: half of the cases have none, the others 1-2; callees are linked to one with p = 2/3
+    let nsup = if rng.chance(1, 2) { 0 } else { rng.range(1, 2) as usize };
+    for _ in 0..nsup {
+        let o = w.exec("spawnsup").await;
+        log.rec("spawnsup", o);
+    }
     for _ in 0..n {
-        let o = w.exec("spawn").await;
-        log.rec("spawn", o);
+        let line = if nsup > 0 && rng.chance(2, 3) { format!("spawnl {}", rng.below(nsup as u64)) } else { "spawn".to_string() };
+        let o = w.exec(&line).await;
+        log.rec(line, o);
     }
     for _ in 0..len {
-        let a = rng.below(n as u64);
-        let k = rng.below(100);
+        let na = w.actors.len() as u64;
+        let a = rng.below(na);
+        let mut k = rng.below(100);
+        if nsup > 0 && rng.chance(1, 5) {
+            k = 100 + rng.below(20);
+        }
+        // ports sitting in the state of an actor that has stopped (possibly inside a held event)
+        let mut in_dead_state: Vec<u64> = w.keeper.iter().filter(|(_, a)| !w.actors[**a].alive).map(|(p, _)| *p).collect();
+        in_dead_state.sort();
         let line = match k {
-            0..=29 => format!("call {a} {}{}", gen_timeout(rng), *rng.pick(&["", "", " m", " d"])),
-            30..=59 => format!("handle {a} {}", gen_act(rng).show()),
-            60..=68 => {
-                // prefer ports that exist
-                let p = if w.next_port > 0 { rng.below(w.next_port) } else { 0 };
+            100..=107 => format!("suphandle {} {}", rng.below(nsup as u64), if rng.chance(2, 3) { "stash" } else { "drop" }),
+            108..=111 => {
+                if !w.stashed.is_empty() && rng.chance(3, 4) {
+                    let (u, b) = *rng.pick(&w.stashed);
+                    format!("supdrop {u} {b}")
+                } else {
+                    format!("supdrop {} {a}", rng.below(nsup as u64))
+                }
+            }
+            112..=115 if !in_dead_state.is_empty() => {
+                let p = *rng.pick(&in_dead_state);
                 let act = if rng.chance(3, 4) { Act::Reply(rng.below(100_000)) } else { Act::Drop };
                 format!("later {p} {}", act.show())
             }
+            112..=116 => format!("stop {a} keep"),
+            117 => format!("spawnl {}", rng.below(nsup as u64)),
+            118 => format!("handle {a} keep"),
+            119 => if rng.chance(1, 2) { format!("supexit {}", rng.below(nsup as u64)) } else { format!("handle {a} keep") },
+            0..=26 => format!("call {a} {}{}", gen_timeout(rng), *rng.pick(&["", " f", " m", " m0", " d"])),
+            27..=29 => format!("cast {a} {}{}", rng.below(1000), *rng.pick(&["", " f", " m", " d", " ds", " dp"])),
+            30..=56 => format!("handle {a} {}", gen_act(rng).show()),
+            // the handler acts exactly when a deadline is reached (reply at the deadline instant wins)
+            57..=59 => format!("handle {a} {} +{}", gen_act(rng).show(), rng.pick(&[1u64, 2, 3, 5])),
+            60..=68 => {
+                // prefer ports that exist
+                let p = if w.next_port > 0 { rng.below(w.next_port) } else { 0 };
+                let act = match rng.below(8) {
+                    0..=4 => Act::Reply(rng.below(100_000)),
+                    5 => Act::Drop,
+                    _ => Act::Probe,
+                };
+                format!("later {p} {}", act.show())
+            }
             69..=75 => {
-                let m = rng.range(1, 3);
-                let ts: Vec<String> = (0..m).map(|_| rng.below(n as u64).to_string()).collect();
+                let m = rng.range(1, 4);
+                let ts: Vec<String> = (0..m).map(|_| rng.below(na).to_string()).collect();
                 format!("mcall {} {}", ts.join(","), gen_timeout(rng))
             }
-            76..=83 => format!("fcall {a} {} {}{}", rng.below(n as u64), gen_timeout(rng), if rng.chance(1, 2) { " m" } else { "" }),
+            76..=83 => format!("fcall {a} {} {}{}", rng.below(na), gen_timeout(rng), *rng.pick(&["", " m", " m", " f"])),
             84..=91 => format!("advance {}", rng.pick(&[1u64, 1, 2, 3, 7])),
-            92 => format!("{} {a}", rng.pick(&["badcast", "badsend", "badcall"])),
-            93..=94 => format!("exit {a}"),
+            92 => format!("{} {a}", rng.pick(&["badcast", "badsend", "badcall", "baddcast", "baddsend", "baddcall", "baddafter"])),
+            93 => format!("exit {a}"),
+            94 => format!("fail {a} {}", if rng.chance(1, 2) { "err" } else { "panic" }),
             95..=97 => format!("stop {a} {}", gen_act(rng).show()),
             _ => format!("drain {a}"),
         };
         st.bump(line.split(' ').next().unwrap());
+        if line.starts_with("call ") || line.starts_with("cast ") || line.starts_with("fcall ") {
+            // which API surface issued it (function / macro arm / derived ref)
+            let w: Vec<&str> = line.split(' ').collect();
+            let n_plain = if w[0] == "fcall" { 4 } else { 3 };
+            st.bump(&format!("surface_{}_{}", w[0], if w.len() > n_plain { w[n_plain] } else { "fn" }));
+        }
         let obs = w.exec(&line).await;
         if obs.contains("senderError") {
             st.bump("obs_senderError");
@@ -621,9 +1189,35 @@ async fn gen_case(log: &mut Log, st: &mut Stats, rng: &mut Rng, len: u64) {
         }
         if obs.contains("mdone") {
             st.bump("obs_mdone");
+            // one multi_call whose members ended differently (reply / drop / timeout mixed)
+            if let Some(m) = obs.split(';').find(|e| e.contains("mdone")) {
+                let kinds = ["success", "senderError", "timeout"].iter().filter(|k| m.contains(**k)).count();
+                if kinds >= 2 {
+                    st.bump("obs_mdone_mixed");
+                }
+                if kinds == 3 {
+                    st.bump("obs_mdone_all_three");
+                }
+            }
+        }
+        if line.starts_with("handle") && line.contains(" +") && obs.contains("sent-ok") {
+            // the reply was sent in the very op in which the clock reached / passed its caller's deadline?
+            st.bump("obs_reply_with_clock_jump");
+        }
+        if obs.starts_with("closed") || obs.starts_with("open") {
+            st.bump(&format!("obs_probe_{}", obs.split(' ').next().unwrap()));
         }
         if obs.contains("fdone") {
             st.bump("obs_fdone");
+        }
+        if obs.starts_with("evt ") {
+            st.bump(if line.ends_with("stash") { "obs_event_stashed" } else { "obs_event_dropped" });
+        }
+        if line.starts_with("supdrop") && obs.starts_with("dropped") {
+            st.bump("obs_stashed_event_dropped");
+        }
+        if line.starts_with("later") && w.keeper.get(&line.split(' ').nth(1).and_then(|x| x.parse::<u64>().ok()).unwrap_or(u64::MAX)).is_some_and(|a| !w.actors[*a].alive) && (obs.starts_with("sent-") || obs.starts_with("dropped")) {
+            st.bump("obs_port_used_from_stashed_state");
         }
         log.rec(line, obs);
     }
@@ -654,6 +1248,8 @@ async fn main() {
     let cases = args.u64("cases", 100);
     let len = args.u64("len", 40);
     let out = args.str("out", "/tmp/rpc");
+    // handler panics are part of the input (`fail a panic`): keep stderr quiet
+    std::panic::set_hook(Box::new(|_| {}));
     let mut rng = Rng::new(seed);
     let mut log = Log::create(std::path::Path::new(&out)).unwrap();
     let mut st = Stats::default();
